@@ -2,6 +2,7 @@ CONSTANTS
   MaxLen = 4
   Cap = 2
   AllowClose = TRUE
+  EmitUnlocked = FALSE
   StallFire = FALSE
   FixedTimer = TRUE
 SPECIFICATION GSpec
